@@ -24,6 +24,10 @@ def obligations(tier, seed=0):
         for entry in ('libmp', 'mpf', 'mpc'):
             for bc in ((1, 9, 70, 300) if kind == 'fin' else (9,)):
                 obs.append((FC + 'pickle_rt', dict(kind=kind, bc=bc, entry=entry)))
+    # copy.copy / copy.deepcopy of a value longer than the current working precision
+    for bc in (9, 70):
+        for entry in ('copy', 'deepcopy'):
+            obs.append((FC + 'pickle_rt', dict(kind='fin', bc=bc, entry=entry, cprec=5)))
     if tier == 'thorough':
         for bc in (2, 3, 53, 64, 1000, 4000):
             for entry in ('libmp', 'mpf', 'mpc'):
